@@ -75,6 +75,8 @@ class Index:
     cardinality = 1
     enabled = True
     prefix = b""
+    # what follows the indexed value in a key
+    separator = b"\x00"
 
     def __init__(self):
         self.hits = self.misses = 0
@@ -113,17 +115,19 @@ class Index:
         cursor = txn.cursor()
         # compile the matches to the expected format for the index,
         # to make substring checks quicker
+        # the separator is part of the compiled match, so that a value does not
+        # also match the keys of longer values that merely start with it
         compiled_matches = []
         for match in matches:
             try:
-                compiled_matches.append(self.to_key(match))
+                compiled_matches.append(self.to_key(match) + self.separator)
             except ValueError:
                 pass
         if since is not None:
             since = since.to_bytes(4, "big")
         if until is not None:
             until = until.to_bytes(4, "big")
-            add_time = b"\x00%s\x00" % until
+            add_time = b"%s\x00" % until
         else:
             add_time = b""
 
@@ -146,7 +150,7 @@ class Index:
             # matches are sorted descending: the scan ends below the smallest one
             stop = compiled_matches[-1]
             if since:
-                stop += b"\x00" + since
+                stop += since
             match, skipped = next_match()
         else:
             match = None
@@ -216,6 +220,7 @@ class Index:
 
 class IdIndex(Index):
     prefix = b"\x00"
+    separator = b""
     cardinality = 1000
 
     def to_key(self, value) -> bytes:
